@@ -249,6 +249,10 @@ theorem evalNode_compat (k : NodeKind) (w : Nat) {a b : Ins} (h : InsCompat a b)
 theorem evalMux_compat (w : Nat) {a b : Ins} (h : InsCompat a b) : compat (evalMux w a) (evalMux w b) :=
   evalNode_compat .mux w h
 
+/-- the tristate pin (`Node_Pin.cpp:52-83`) as well -/
+theorem evalTristate_compat (w : Nat) {a b : Ins} (h : InsCompat a b) : compat (evalTristate w a) (evalTristate w b) :=
+  compat_of_le_le (evalTristate_mono w (insLe_join_left h)) (evalTristate_mono w (insLe_join_right h))
+
 /-! ## combinational netlists -/
 
 abbrev ValsCompat (a b : Vals) : Prop := Forall2 optCompat a b
@@ -285,6 +289,11 @@ theorem evalNetNode_compat {env env' : Env} (he : EnvCompat env env') {v v' : Va
   | input k => exact forall₂_getD he _ _ (compat_refl _) k
   | signal => exact forall₂_getD (gather_compat h n.ins) none none trivial 0
   | node k ty => exact evalNode_compat k n.w (gather_compat h n.ins)
+  | tristate k =>
+    have hg := gather_compat h n.ins
+    exact evalTristate_compat n.w
+      (.cons (forall₂_getD hg none none trivial 0) (.cons (forall₂_getD hg none none trivial 1)
+        (.cons (forall₂_getD he _ _ (compat_refl _) k) .nil)))
 
 theorem evalNetFrom_compat {env env' : Env} (he : EnvCompat env env') (net : List NetNode) {v v' : Vals} (h : ValsCompat v v') :
     ValsCompat (evalNetFrom env net v) (evalNetFrom env' net v') := by
@@ -301,6 +310,11 @@ theorem evalNetNode_mono {env env' : Env} (he : EnvLe env env') {v v' : Vals} (h
   | input k => exact forall₂_getD he _ _ (le_refl _) k
   | signal => exact forall₂_getD (gather_le h n.ins) none none trivial 0
   | node k ty => exact evalNode_mono k n.w (gather_le h n.ins)
+  | tristate k =>
+    have hg := gather_le h n.ins
+    exact evalTristate_mono n.w
+      (.cons (forall₂_getD hg none none trivial 0) (.cons (forall₂_getD hg none none trivial 1)
+        (.cons (forall₂_getD he _ _ (le_refl _) k) .nil)))
 
 /-- **every combinational netlist is monotone**: refining the stimulus refines the value of every node -/
 theorem evalNetFrom_mono {env env' : Env} (he : EnvLe env env') (net : List NetNode)
